@@ -6,10 +6,11 @@ pub mod common;
 pub mod decimals;
 pub mod decode;
 pub mod feed;
+pub mod openness;
 
 use simcore::{CheckSpec, Part};
 
-pub const PROPERTIES: &[&str] = &["C25", "C28", "C26", "C24", "C29"];
+pub const PROPERTIES: &[&str] = &["C25", "C28", "C26", "C24", "C29", "C27"];
 
 pub fn registry(property: &str) -> Option<CheckSpec> {
     match property {
@@ -59,6 +60,16 @@ pub fn registry(property: &str) -> Option<CheckSpec> {
             assumptions: vec![
                 "only the explicit-reference path (the report's own mid price) is reachable with custom feeds; the implicit mid-of-min/max reference of Pyth / Switchboard feeds is not simulated".into(),
                 "adjusted prices are observed through set_prices_from_price_feed (the Oracle account keeps them); inside executing instructions they are not observable".into(),
+            ],
+        }),
+        "C27" => Some(CheckSpec {
+            property: "C27",
+            level: "exploration",
+            parts: vec![Part::new(openness::Openness, 15_000, 300_000)],
+            assumptions: vec![
+                "chain part only: report timestamps are u32 and the cluster clock is non-decreasing, so the 64-bit extremes of is_market_open are covered by the unit-level timeline simulation (unitsim), not here".into(),
+                "on chain the close timeout is the token's heartbeat_duration and the last-update difference is stored in whole seconds (ceil)".into(),
+                "a report without market status (v2/v3/v7) counts as 'not closed'; a feed that never received a report carries no open flag".into(),
             ],
         }),
         _ => None,
